@@ -47,6 +47,8 @@ def dispatch (line : String) : String :=
     | "tls" => C06.tlsOp args
     | "pool" => PoolOp.poolOp args
     | "wstall" => PoolOp.wstallOp args
+    | "cstall" => PoolOp.cstallOp args
+    | "shut" => PoolOp.shutOp args
     | "transports" => C18.transportsOp args
     | "body" => C10.bodyOp args
     | "hval" => C02.hvalOp false args
